@@ -35,6 +35,19 @@ func NewDatabaseWithID(id redis.DatabaseID) *Database {
 	}
 }
 
+// FindListRecord returns the list stored at the key without creating it; the list is nil when the key does not exist.
+func (db *Database) FindListRecord(key string) (*Record, *List, error) {
+	record, hasRecord := db.GetRecord(key)
+	if !hasRecord {
+		return nil, nil, nil
+	}
+	v, ok := record.Data.(*List)
+	if !ok {
+		return nil, nil, fmt.Errorf(errorInvalidStoredDataType, record.Data)
+	}
+	return record, v, nil
+}
+
 func (db *Database) GetListRecord(key string) (*Record, *List, error) {
 	var list *List
 	record, hasRecord := db.GetRecord(key)
@@ -58,6 +71,19 @@ func (db *Database) GetListRecord(key string) (*Record, *List, error) {
 	return record, list, nil
 }
 
+// FindSetRecord returns the set stored at the key without creating it; the set is nil when the key does not exist.
+func (db *Database) FindSetRecord(key string) (*Record, *Set, error) {
+	record, hasRecord := db.GetRecord(key)
+	if !hasRecord {
+		return nil, nil, nil
+	}
+	v, ok := record.Data.(*Set)
+	if !ok {
+		return nil, nil, fmt.Errorf(errorInvalidStoredDataType, record.Data)
+	}
+	return record, v, nil
+}
+
 func (db *Database) GetSetRecord(key string) (*Record, *Set, error) {
 	var set *Set
 	record, hasRecord := db.GetRecord(key)
@@ -79,6 +105,19 @@ func (db *Database) GetSetRecord(key string) (*Record, *Set, error) {
 		db.SetRecord(record)
 	}
 	return record, set, nil
+}
+
+// FindZSetRecord returns the zset stored at the key without creating it; the zset is nil when the key does not exist.
+func (db *Database) FindZSetRecord(key string) (*Record, *ZSet, error) {
+	record, hasRecord := db.GetRecord(key)
+	if !hasRecord {
+		return nil, nil, nil
+	}
+	v, ok := record.Data.(*ZSet)
+	if !ok {
+		return nil, nil, fmt.Errorf(errorInvalidStoredDataType, record.Data)
+	}
+	return record, v, nil
 }
 
 func (db *Database) GetZSetRecord(key string) (*Record, *ZSet, error) {
